@@ -462,6 +462,8 @@ impl Oracle {
         let ok = inv.exit_code.is_success();
         let wid = self.ws[i].id;
         let tag = |s: &str| format!("wallet {} caller {} method {}: {}", wid, caller, inv.method, s);
+        // membership when the call starts (the executed transaction may remove the caller)
+        let was_signer = self.ws[i].signers.contains(&caller);
         match inv.method {
             2 | 3 => {
                 let (id, tx): (Option<i64>, Option<OTx>) = if inv.method == 2 {
@@ -538,7 +540,7 @@ impl Oracle {
                     self.walk(snd, epoch, depth + 1, out);
                 }
                 if ok {
-                    if !self.ws[i].signers.contains(&caller) {
+                    if !was_signer {
                         out.push(("non-signer-accepted".into(), tag("")));
                     }
                     let applied = if inv.method == 2 {
@@ -576,7 +578,7 @@ impl Oracle {
             }
             4 => {
                 if ok {
-                    if !self.ws[i].signers.contains(&caller) {
+                    if !was_signer {
                         out.push(("non-signer-accepted".into(), tag("cancel")));
                     }
                     if let Some(id) = de::<TxnIDParams>(&inv.params).map(|p| p.id.0) {
@@ -905,7 +907,7 @@ impl G<'_> {
         }
     }
 
-    fn gen(&self, r: &mut Rng) -> GOp {
+    fn next_op(&self, r: &mut Rng) -> GOp {
         let nw = self.projs.len();
         let outsider = self.e.accts.len() - 1;
         let k = r.below(100);
@@ -1166,7 +1168,7 @@ pub fn run(cfg: &RunCfg) -> Report {
                     raws.push(raw);
                 }
                 let g = G { e: &s.e, projs: projs.clone(), raws, epoch: s.epoch };
-                let op = g.gen(&mut r);
+                let op = g.next_op(&mut r);
                 let m = match op {
                     GOp::Advance(t) => {
                         s.epoch = t;
